@@ -10,6 +10,7 @@ SPECS = os.path.join(VERIF, 'specs')
 HARNESS = os.path.join(VERIF, 'harness')
 BUILD = os.environ.get('VERIF_BUILD', 'build')          # build directory name under harness/ (seed testing uses its own)
 RUNROOT = os.environ.get('VERIF_RUNROOT', os.path.join(VERIF, 'run'))
+MEM_BUDGET_GB = int(os.environ.get('VERIF_MEM_GB', '40'))   # memory the parallel TLC trace validations may use together
 SCRATCH = REPO != '/repo'                                # running against a scratch copy: never touch evidence/
 NCPU = os.cpu_count() or 4
 JAVA = ['java', '-Xss256m', '-XX:+UseParallelGC', '-DTLA-Library=' + SPECS, '-cp',
@@ -132,6 +133,13 @@ class Ctx:
 
     def validate(self, module, traces, timeout=3000, heap='6g', cfg=None, par=None):
         t = time.time()
+        if par is None:
+            # TLC holds the deserialised trace in memory (roughly 14x the file size): bound heap and parallelism by the largest trace
+            big = max([os.path.getsize(x) for x in traces] + [0]) / 1e9
+            need = int(big * 14) + 2                      # estimated use; -Xmx is only a ceiling
+            if need + 2 > int(heap.rstrip('g')):
+                heap = '%dg' % (need + 2)
+            par = max(1, min(NCPU, int(MEM_BUDGET_GB // need)))
         with ThreadPoolExecutor(max_workers=par or NCPU) as ex:
             results = list(ex.map(lambda tr: self.validate_one(module, tr, timeout, heap, cfg), traces))
         for r in results:
